@@ -3,6 +3,7 @@ import glob
 import os
 from tbxlint.facts import extract, AnalysisBroken, MODULES
 from tbxlint import locks, q, ival
+from rules import C09_replay
 
 ANON = '(anonymous namespace)::'
 G_LOCK = ANON + '_lock'
@@ -361,8 +362,8 @@ def r6(ctx, prog):
     ctx.rule('C09.R6', 'A4: the back end consumes a record only when header + text_len bytes are readable, and consumes exactly those', floor=2)
     f = prog.fn1(ASINK + '::onLogBackEndReadPipe')
     hr = [st for st in f.calls() if st.get('fn') == 'hasRead' and q.obj_field_is(f, st, 'AsyncSink::buffer_')]
-    if len(hr) != 2:
-        raise AnalysisBroken('onLogBackEndReadPipe: expected two hasRead calls, found %d' % len(hr))
+    if not hr:
+        raise AnalysisBroken('onLogBackEndReadPipe: no hasRead on the receive buffer found')
     # the break test: frame_size > readableSize()
     tests = []
     for st in f.stmts:
@@ -389,11 +390,11 @@ def r6(ctx, prog):
         hp = q.pt(f, h)
         ok = any(f.cfg.dominates(q.pt(f, t), hp) for t in frame_tests)
         ctx.ob('C09.R6', '%s|complete-before-consume' % f.name, ok, 'hasRead dominated by the "whole frame readable" test', where=f.loc(h['i']))
-    a0 = f.s(f.strip_casts(hr[0]['args'][0]))
-    a1 = f.path(hr[1]['args'][0])
-    sizes = sorted([(h['l'], f.s(f.strip_casts(h['args'][0])).get('cv'), f.path(h['args'][0])) for h in hr])
-    ok = sizes[0][1] is not None and sizes[1][2] == 'content.text_len'
-    ctx.ob('C09.R6', '%s|consume-exact' % f.name, ok, 'consumes sizeof(header)=%s then content.text_len' % sizes[0][1], where=f.loc(hr[0]['i']))
+    # how much is consumed — header then text, or the whole frame at once — is decided exactly by the replay C09.R13 (every segmentation of short streams);
+    # here only: each consume is a function of the header size and/or the record's text length, nothing else
+    okc = all(f.s(f.strip_casts(h['args'][0])).get('cv') is not None or depends_on_textlen(h['args'][0]) for h in hr)
+    ctx.ob('C09.R6', '%s|consume-exact' % f.name, okc, 'every consume is sized by sizeof(header) and/or the record\'s text_len' if okc else
+           'a consume of the receive buffer is sized by something other than the header size and the record\'s text length', where=f.loc(hr[0]['i']))
 
 
 def r7(ctx, prog):
@@ -687,4 +688,6 @@ def run(ctx):
     ctx.guard(r9, ctx, prog)
     ctx.guard(r10, ctx, prog)
     ctx.guard(r11, ctx, prog)
+    ctx.guard(C09_replay.r12, ctx, prog)
+    ctx.guard(C09_replay.r13, ctx, prog)
     return prog
